@@ -375,6 +375,8 @@ class Tr:
             raise Unsupported("Network.is_valid not found")
         if [a.arg for a in fn.args.args] != ["self", "raises"] or fn.args.vararg or fn.args.kwarg or fn.args.kwonlyargs:
             raise Unsupported("Network.is_valid: parameters are not (self, raises)")
+        if len(fn.args.defaults) != 1 or not (isinstance(fn.args.defaults[0], ast.Constant) and fn.args.defaults[0].value is False):
+            raise Unsupported("Network.is_valid: the default of `raises` is not False")
         for node in ast.walk(fn):
             if isinstance(node, (ast.Break, ast.Continue, ast.Try, ast.While, ast.With, ast.Global, ast.Nonlocal, ast.Delete)):
                 raise Unsupported(f"Network.is_valid: {type(node).__name__} statement")
